@@ -32,6 +32,19 @@ def sites(tree, kind):
                 names = {x.id for x in ast.walk(c.args[0]) if isinstance(x, ast.Name)}
                 if not (names & bound) and not any(isinstance(x, ast.Call) for x in ast.walk(c.args[0])):
                     out.append((n, c))
+        elif kind == "splitlist" and isinstance(n, ast.AugAssign) and isinstance(n.value, ast.List) and len(n.value.elts) >= 2 and \
+                isinstance(n.target, ast.Attribute) and n.target.attr in ("comb", "sync"):
+            out.append(n)
+        elif kind == "combalias" and isinstance(n, ast.AugAssign) and isinstance(n.target, ast.Attribute) and n.target.attr in ("comb", "sync") \
+                and isinstance(n.target.value, ast.Name) and n.target.value.id == "self":
+            v = n.value
+            for c in [c for c in ast.walk(v) if isinstance(c, ast.Call) and isinstance(c.func, ast.Name) and c.func.id == "If" and c.args]:
+                bound = {x.id for p in ast.walk(v) if isinstance(p, (ast.ListComp, ast.GeneratorExp, ast.DictComp, ast.SetComp, ast.Lambda))
+                         for x in ast.walk(p) if isinstance(x, ast.Name) and isinstance(x.ctx, ast.Store)}
+                names = {x.id for x in ast.walk(c.args[0]) if isinstance(x, ast.Name)}
+                if not (names & bound) and isinstance(c.args[0], (ast.BinOp, ast.UnaryOp, ast.Compare)) and \
+                        not any(isinstance(x, ast.Call) for x in ast.walk(c.args[0])):
+                    out.append((n, c))
         elif kind == "swapstmt" and isinstance(n, ast.List) and len(n.elts) >= 2:
             for i in range(len(n.elts) - 1):
                 a, b = n.elts[i], n.elts[i + 1]
@@ -55,6 +68,33 @@ def variant(rel, kind, idx):
     elif kind == "swapstmt":
         lst, i = s
         lst.elts[i], lst.elts[i + 1] = lst.elts[i + 1], lst.elts[i]
+    elif kind == "splitlist":
+        stmts = [ast.AugAssign(target=copy.deepcopy(s.target), op=ast.Add(), value=e) for e in s.value.elts]
+        for p in ast.walk(tree):
+            for fld in ("body", "orelse", "finalbody"):
+                b = getattr(p, fld, None)
+                if isinstance(b, list) and any(x is s for x in b):
+                    k = [j for j, x in enumerate(b) if x is s][0]
+                    b[k:k + 1] = stmts
+                    ast.fix_missing_locations(tree)
+                    return ast.unparse(tree)
+        return None
+    elif kind == "combalias":
+        stmt, call = s
+        cond = call.args[0]
+        name = "_gfz"
+        call.args[0] = ast.Name(id=name, ctx=ast.Load())
+        new = ast.parse(f"{name} = Signal()\nself.comb += {name}.eq(0)").body
+        new[1].value.args[0] = cond
+        for p in ast.walk(tree):
+            for fld in ("body", "orelse", "finalbody"):
+                b = getattr(p, fld, None)
+                if isinstance(b, list) and any(x is stmt for x in b):
+                    k = [j for j, x in enumerate(b) if x is stmt][0]
+                    b[k:k] = new
+                    ast.fix_missing_locations(tree)
+                    return ast.unparse(tree)
+        return None
     elif kind == "alias":
         stmt, call = s
         cond = call.args[0]
@@ -106,7 +146,7 @@ def main():
     args = [a for a in sys.argv[1:] if not a.startswith("--")]
     opt = lambda k, d=None: sys.argv[sys.argv.index(k) + 1] if k in sys.argv else d
     limit = int(opt("--limit", "0")) or None
-    kinds = [opt("--kind")] if opt("--kind") else ["commute", "alias", "swapstmt"]
+    kinds = [opt("--kind")] if opt("--kind") else ["commute", "alias", "swapstmt", "splitlist", "combalias"]
     pids = [a for a in args if a[0] == "C"] or [f"C{i:02d}" for i in range(1, 21)]
     jobs = []
     for pid in pids:
